@@ -53,6 +53,9 @@ pub enum Driving {
     NeverDrain,
     /// like PerFrame but sound generation switched off
     SoundOff,
+    /// like PerFrame, with the host switching sound generation on/off before each frame (bit 0
+    /// of the cycled entries)
+    SettingsToggled(Vec<u8>),
 }
 
 #[derive(Clone, Copy, Debug, Serialize, Deserialize, PartialEq, Eq)]
@@ -285,6 +288,13 @@ pub fn drive(sc: &Scenario, e: &mut Emu, d: &Driving) -> Result<Trace, String> {
         }
         let next_event = sc.events.get(ev_i).map(|x| x.0 as u64).unwrap_or(k).max(now + 1).min(k);
         match d {
+            Driving::SettingsToggled(bits) => {
+                let b = bits[(now as usize) % bits.len()];
+                e.set_sound(b & 1 == 1);
+                e.set_speed(EmulationMode::FrameCount(1));
+                e.debug_interface().unwrap().mode = BpMode::Never;
+                e.emulate_frames(LONG).map_err(|x| format!("{:?}", x))?;
+            }
             Driving::PerFrame | Driving::NeverDrain | Driving::SoundOff => {
                 e.set_speed(EmulationMode::FrameCount(1));
                 e.debug_interface().unwrap().mode = BpMode::Never;
@@ -413,6 +423,7 @@ pub fn check(c: &Case, rec: &mut Rec) -> Result<(), String> {
         Driving::BreakAtPc(_) => "breakpoints-at-pc",
         Driving::NeverDrain => "never-drain",
         Driving::SoundOff => "sound-off",
+        Driving::SettingsToggled(_) => "sound-toggled-between-frames",
     }));
     rec.class(&format!("asset:{}", match c.asset {
         AssetKind::Mem => "harness-mem",
@@ -435,6 +446,7 @@ pub fn case_strategy() -> impl Strategy<Value = Case> {
             2 => proptest::collection::vec(prop_oneof![Just(0x056Bu16), Just(0x0556), Just(0x0038), Just(0x053F), 0x8000u16..0x8040, Just(0xA000)], 1..=4).prop_map(Driving::BreakAtPc),
             1 => Just(Driving::NeverDrain),
             1 => Just(Driving::SoundOff),
+            1 => proptest::collection::vec(any::<u8>(), 1..=6).prop_map(Driving::SettingsToggled),
         ],
         prop_oneof![3 => Just(AssetKind::Mem), 1 => Just(AssetKind::BufferCursor), 1 => Just(AssetKind::File), 1 => Just(AssetKind::Gzip), 2 => (1u8..=255).prop_map(AssetKind::Chunked)],
     )
@@ -451,7 +463,7 @@ pub fn replay(run: &mut Run, phase: &str, case: &serde_json::Value) -> Result<()
 }
 
 pub const LEVEL: &str = "exploration";
-pub const RULE: &str = "scenario = machine x generated interrupt-driven program (ALU, memory and screen writes, beeper/border OUTs, keyboard+EAR, Kempston and mouse reads stored to RAM, AY register writes with read-back, 128K paging, LDIR, HALT, EI/DI) with a self-counting IM 1 / IM 2 handler x sound settings (AY, beeper, sample rate 8000..96000, volume) x optional playing tape x input script (key / joystick / mouse events attached to frame indices) x K = 2..12 frames, started from a SNA file. The reference run drives it one frame per call, draining audio. The run under test uses one of: the same again (repeatability, audio compared bit for bit), a partition into FrameCount(n) calls, maximum-speed mode with scripted stopwatch readings (zeros, non-monotonic, large), breakpoint stops after generated instruction counts with resumption, audio never drained, sound switched off; and delivers the initial file through the harness asset, rustzx's BufferCursor, a real temporary file (FileAsset), GzipAsset, or an asset returning 1..255 bytes per read. At every frame count where the run under test stops on a frame boundary, a hash of registers, all RAM banks, paging, frame clock, canvas and border buffers must equal the reference run's. non-trivial = >= 2 frames and a driving or asset different from the reference; distinct = hash of the case";
+pub const RULE: &str = "scenario = machine x generated interrupt-driven program (ALU, memory and screen writes, beeper/border OUTs, keyboard+EAR, Kempston and mouse reads stored to RAM, AY register writes with read-back, 128K paging, LDIR, HALT, EI/DI) with a self-counting IM 1 / IM 2 handler x sound settings (AY, beeper, sample rate 8000..96000, volume) x optional playing tape x input script (key / joystick / mouse events attached to frame indices) x K = 2..12 frames, started from a SNA file. The reference run drives it one frame per call, draining audio. The run under test uses one of: the same again (repeatability, audio compared bit for bit), a partition into FrameCount(n) calls, maximum-speed mode with scripted stopwatch readings (zeros, non-monotonic, large), breakpoint stops after generated instruction counts with resumption, audio never drained, sound switched off, sound switched on and off between frames; and delivers the initial file through the harness asset, rustzx's BufferCursor, a real temporary file (FileAsset), GzipAsset, or an asset returning 1..255 bytes per read. At every frame count where the run under test stops on a frame boundary, a hash of registers, all RAM banks, paging, frame clock, canvas and border buffers must equal the reference run's. non-trivial = >= 2 frames and a driving or asset different from the reference; distinct = hash of the case";
 pub const ASSUMPTIONS: &[&str] = &[
     "inputs are applied between emulate_frames calls at the same frame indices in all drivings (the property's 'inputs applied at frame boundaries')",
     "total frame count comes from the cfg(rustzx_verif) frame counter hook",
